@@ -106,8 +106,11 @@ class Sibling:
 
 def run_history(rng, scratch, cid, cipher, hashing):
     env = environment(cid)
-    with DebugLogging(env['debug']):
-        return _run_history(rng, scratch, cid, cipher, hashing, env)
+    with DebugLogging(env['debug']), PrimitiveLog() as plog:
+        h = _run_history(rng, scratch, cid, cipher, hashing, env)
+    h['primitive_calls'] = len(plog.calls)
+    h['primitive_reuse'] = plog.reused()
+    return h
 
 
 def _run_history(rng, scratch, cid, cipher, hashing, env):
@@ -560,6 +563,10 @@ def check_case(ctx, rep: Report, h, encrypted=True):
         seen.add(key)
         rep.violations.append({'what': f'[{label}] {hit["secret"]} found in {hit["form"]} form in {hit["where"]}',
                                'signature': {'secret': hit['secret'], 'where': hit['where']}, 'replay': replay})
+    rep.count('primitive encryptions', h.get('primitive_calls', 0))
+    for cipher_, times, lens in h.get('primitive_reuse', [])[:1]:
+        rep.violations.append({'what': f'[{label}] one (key, nonce) pair was handed to {cipher_} {times} times during the history (plaintext lengths {lens})',
+                               'signature': {'secret': 'nonce reuse', 'where': 'primitive'}, 'replay': replay})
     if h.get('failures'):
         # a command of the honest history failed on the implementation: what was written has been scanned, nothing to lift
         rep.case((cid, h['seed']), nontrivial=False)
@@ -701,6 +708,91 @@ def vanishing_chunk_probe(ctx, rep):
         shutil.rmtree(root, ignore_errors=True)
 
 
+class PrimitiveLog:
+    """Records every (cipher, key, nonce, length) handed to the AEAD primitives while active: the classes of
+    cryptography.hazmat.primitives.ciphers.aead are replaced by recording fronts (the adapters look them up there on
+    every call)."""
+    NAMES = ('AESGCM', 'ChaCha20Poly1305')
+
+    def __init__(self):
+        self.calls = []
+
+    def __enter__(self):
+        from cryptography.hazmat.primitives.ciphers import aead
+        self.aead = aead
+        self.orig = {n: getattr(aead, n) for n in self.NAMES}
+        log = self.calls
+
+        def front(name, orig):
+            class Recording:
+                def __init__(self, key):
+                    self._key = bytes(key)
+                    self._inner = orig(key)
+
+                def encrypt(self, nonce, data, associated_data):
+                    log.append((name, self._key, bytes(nonce), len(data)))
+                    return self._inner.encrypt(nonce, data, associated_data)
+
+                def decrypt(self, nonce, data, associated_data):
+                    return self._inner.decrypt(nonce, data, associated_data)
+
+                generate_key = staticmethod(getattr(orig, 'generate_key', None))
+            Recording.__name__ = name
+            return Recording
+        for n, o in self.orig.items():
+            setattr(aead, n, front(n, o))
+        return self
+
+    def __exit__(self, *exc):
+        for n, o in self.orig.items():
+            setattr(self.aead, n, o)
+
+    def reused(self):
+        """[(cipher, times, lengths)] for every (key, nonce) pair that reached the primitive more than once"""
+        seen = {}
+        for name, key, nonce, ln in self.calls:
+            seen.setdefault((name, key, nonce), []).append(ln)
+        return [(k[0], len(v), v[:4]) for k, v in seen.items() if len(v) > 1]
+
+
+def size_threshold_probe(ctx, rep):
+    """Inputs around every size threshold a cipher adapter declares.  Integer class attributes of the adapter (such as
+    a per-call limit of the primitive) mark code paths that ordinary data never reaches; the probe scales such an attribute
+    down on one instance and encrypts data of 0.5x / 1x / 3x+5 that size, recording what reaches the primitive: whatever the
+    path, one (key, nonce) pair must not be used twice.  Without any such attribute only plain sizes are tried."""
+    from replicat.utils import adapters
+    makers = [('aes_gcm', lambda: adapters.aes_gcm(key_bits=256)), ('chacha20_poly1305', lambda: adapters.chacha20_poly1305())]
+    for cname, make in makers:
+        probe = make()
+        limits = sorted(n for n in dir(type(probe)) if n.isupper() and isinstance(getattr(type(probe), n, None), int)
+                        and not isinstance(getattr(type(probe), n), bool) and getattr(type(probe), n) >= 1 << 16)
+        for attr in [None] + limits:
+            a = make()
+            small = 4096
+            if attr is not None:
+                setattr(a, attr, small)
+            key = bytes(range(a.key_bytes))
+            for ln in (small // 2, small, 3 * small + 5):
+                data = ctx.rng.randbytes(ln)
+                with PrimitiveLog() as log:
+                    try:
+                        ct = a.encrypt(data, key)
+                        ok = a.decrypt(ct, key) == data
+                    except Exception as e:  # the scaled attribute may not be a size after all
+                        rep.notes.append(f'size-threshold probe {cname}.{attr}={small}, {ln} bytes: {type(e).__name__}')
+                        continue
+                rep.case(('size-threshold', cname, attr, ln), nontrivial=attr is not None)
+                rep.count('probe:size-threshold')
+                for cipher, times, lens in log.reused():
+                    rep.violations.append({
+                        'what': f'{cname}: encrypting {ln} bytes with {attr} scaled to {small} hands one (key, nonce) pair to {cipher} {times} times '
+                                f'(segments of {lens} bytes): nonce reuse under one key',
+                        'signature': {'kind': 'nonce_reuse', 'scenario': 'size_threshold'},
+                        'replay': {'probe': 'size_threshold', 'cipher': cname, 'attribute': attr, 'length': ln}})
+                if not ok:
+                    rep.disagreements.append({'what': f'{cname}: decrypt(encrypt(x)) != x for {ln} bytes with {attr}={small}', 'replay': None})
+
+
 def duplicated_state_probe(ctx, rep):
     """Cipher adapter state duplicated the way fork / pickling duplicates it: two copies encrypting under one key must not
     produce the same nonce (the nonce may not come from copyable userspace state)."""
@@ -741,6 +833,7 @@ def run(ctx) -> Report:
     scanner_selfcheck(ctx, rep)
     vanishing_chunk_probe(ctx, rep)
     duplicated_state_probe(ctx, rep)
+    size_threshold_probe(ctx, rep)
     return rep
 
 
@@ -755,12 +848,19 @@ def search(ctx, broken) -> Report:
             cid += 1
     vanishing_chunk_probe(ctx, rep)
     duplicated_state_probe(ctx, rep)
+    size_threshold_probe(ctx, rep)
     return rep
 
 
 def replay(ctx, obj):
     import random
     r = obj.get('replay') or {}
+    if 'probe' in r:
+        rep = Report(rule=RULE)
+        {'vanishing_chunk': vanishing_chunk_probe, 'duplicated_state': duplicated_state_probe, 'size_threshold': size_threshold_probe}[r['probe']](ctx, rep)
+        for v in rep.violations:
+            print('VIOLATION-REPRODUCED', v['what'])
+        return 1 if rep.violations else 0
     if 'seed' not in r:
         print('replay file does not carry a configuration:', obj.get('kind'))
         for b in obj.get('broken', []):
